@@ -170,6 +170,8 @@ func (w *world) boot() error {
 	scfg := &sender.Config{Size: 100}
 	scfg.Plugins.Http.Enabled = false
 	scfg.Plugins.Poll.Enabled = false
+	// the logical receiver of the scripted scenarios (the random workloads name receivers nobody configured)
+	scfg.Targets = []sender.TargetConfig{{Name: "w", Type: "poll", Data: json.RawMessage(`{"group":"g","id":"w"}`)}}
 	if w.sender, err = sender.New(w.aio, mt, scfg); err != nil {
 		return err
 	}
